@@ -10,6 +10,7 @@ Theorem C11_2d : C11_2d_stmt.       Proof. exact C11_pe.C11_2d. Qed.
 Theorem C11_cross : C11_cross_stmt. Proof. exact C11_pe.C11_cross. Qed.
 Theorem C11_4d : C11_4d_stmt.       Proof. exact C11_pe.C11_4d. Qed.
 Theorem C11_slerp : C11_slerp_stmt. Proof. exact C11_pf.C11_slerp. Qed.
+Theorem C11_degrees : C11_degrees_stmt. Proof. exact C11_pd.C11_degrees. Qed.
 Theorem C11_slerp_clamped : C11_slerp_clamped_stmt. Proof. exact C11_pg.C11_slerp_clamped. Qed.
 
 Print Assumptions C11_basic.
@@ -20,3 +21,4 @@ Print Assumptions C11_cross.
 Print Assumptions C11_4d.
 Print Assumptions C11_slerp.
 Print Assumptions C11_slerp_clamped.
+Print Assumptions C11_degrees.
